@@ -212,6 +212,52 @@ theorem extension_framed (d : Dispatcher) (t : Nat) (ht : t < 65536) (data : Lis
     · rename_i p _; cases p data <;> rfl
     · rfl
 
+/-- single SCT with its declared entry present: whatever the entry contains - also an `Incomplete` from inside a cut
+    entry - the answer does not depend on what follows the entry -/
+theorem sct_framed (entry : List β) (hl : entry.length < 65536) (r x : List β) :
+    parseSct (encLD 2 entry ++ (r ++ x)) = (parseSct (encLD 2 entry ++ r)).mapRem (· ++ x) := by
+  have e1 : ∀ z : List β, parseSct (encLD 2 entry ++ z) = (parseSctContentEntry entry).bind fun _ v => .ok z v := by
+    intro z
+    unfold parseSct mapParser
+    rw [lengthData2_enc _ hl]; simp only [Res.bind_ok]
+  rw [e1, e1]
+  cases parseSctContentEntry entry <;> rfl
+
+/-- SCT list with its declared length present: likewise for the whole list -/
+theorem sctList_framed (body : List β) (hl : body.length < 65536) (r x : List β) :
+    parseSctList (encLD 2 body ++ (r ++ x)) = (parseSctList (encLD 2 body ++ r)).mapRem (· ++ x) := by
+  have e1 : ∀ z : List β, parseSctList (encLD 2 body ++ z)
+      = (many0 (complete parseSct) body).bind fun _ v => .ok z v := by
+    intro z
+    unfold parseSctList encLD mapParser
+    simp only [List.append_assoc]
+    rw [beU2_enc _ hl]; simp only [Res.bind_ok]
+    rw [take_enc]; simp only [Res.bind_ok]
+  rw [e1, e1]
+  cases many0 (complete parseSct) body <;> rfl
+
+/-- DTLS handshake message with its declared fragment present (12-byte header, then `fragment_length` bytes): the body
+    parser sees the fragment only, so what follows the message never matters - whatever the header fields are -/
+theorem dtlsHandshake_framed (t len seq off : Nat) (ht : t < 256) (hlen : len < 16777216) (hseq : seq < 65536)
+    (hoff : off < 16777216) (frag : List β) (hf : frag.length < 16777216) (r x : List β) :
+    parseDtlsMessageHandshake ((encBE 1 t : List β) ++ (encBE 3 len ++ (encBE 2 seq ++ (encBE 3 off ++ (encLD 3 frag ++ (r ++ x))))))
+      = (parseDtlsMessageHandshake ((encBE 1 t : List β) ++ (encBE 3 len ++ (encBE 2 seq ++ (encBE 3 off ++ (encLD 3 frag ++ r)))))).mapRem (· ++ x) := by
+  have e1 : ∀ z : List β,
+      parseDtlsMessageHandshake ((encBE 1 t : List β) ++ (encBE 3 len ++ (encBE 2 seq ++ (encBE 3 off ++ (encLD 3 frag ++ z)))))
+      = (parseDtlsBody t len (decide (off > 0) || decide (frag.length < len)) frag).bind fun _ body =>
+          .ok z (.handshake ⟨t, len, seq, off, frag.length, body⟩) := by
+    intro z
+    unfold parseDtlsMessageHandshake encLD
+    simp only [List.append_assoc]
+    rw [beU1_enc _ ht]; simp only [Res.bind_ok]
+    rw [beU3_enc _ hlen]; simp only [Res.bind_ok]
+    rw [beU2_enc _ hseq]; simp only [Res.bind_ok]
+    rw [beU3_enc _ hoff]; simp only [Res.bind_ok]
+    rw [beU3_enc _ hf]; simp only [Res.bind_ok]
+    rw [take_enc]; simp only [Res.bind_ok]
+  rw [e1, e1]
+  cases parseDtlsBody t len (decide (off > 0) || decide (frag.length < len)) frag <;> rfl
+
 /-! ### alias (zero-copy), for the slice-producing primitives and the record level
 
 Every `&[u8]` of a parsed value is produced by `take` / `length_data` (a prefix of what is left of the input),
